@@ -94,7 +94,7 @@ SilentEarlySend ==
 Silent ==
   /\ l <= NEv /\ UNCHANGED <<l, ack, early>>
   /\ \E s \in Sessions :
-       \/ DcOnMessageStart(s) \/ PipeRendezvous(s) \/ DcReadErr(s) \/ DcLoss(s) \/ DownLoss(s) \/ LoggerDrain(s)
+       \/ DcOnMessageStart(s) \/ PipeRendezvous(s) \/ DcReadErr(s) \/ DcLoss(s) \/ DownLoss(s) \/ UpLoss(s) \/ LoggerDrain(s)
        \/ CopyUpEOF(s) \/ CopyUpClosed(s) \/ CopyToRelay(s) \/ CopyUpFails(s)
        \/ CopyDownEOF(s) \/ ConnWriteAdd(s) \/ PrClose(s) \/ WsClose(s)
        \/ (NextWrite(s) > 0 /\ ~early[s] /\ CopyDownRead(s, NextWrite(s)))
